@@ -385,3 +385,103 @@ Proof.
     + rewrite Hm in Hne. destruct Hne.
   - intros fuel' Hf'. unfold render. rewrite Hfind. rewrite (Hsame fuel' Hf'). reflexivity.
 Qed.
+
+(* ------------------------------------------------------------------ *)
+(* every run that answers has a call depth: a run with fuel f cannot nest more than f calls, so the
+   walker capped at d >= f - 1 is the walker (started at call depth 0) unless the fuel runs out *)
+
+Definition drel (k : nat) {A} (m1 m2 : M A) : Prop :=
+  forall st, depth_ st = k ->
+    fst (m2 st) = OutOfFuel \/ (m1 st = m2 st /\ depth_ (snd (m2 st)) = k).
+
+Lemma drel_same k {A} (m : M A) :
+  (forall st r st', m st = (r, st') -> depth_ st' = depth_ st) -> drel k m m.
+Proof.
+  intros H st Hk. right. split; [reflexivity|].
+  destruct (m st) as [r st'] eqn:E. cbn [snd]. rewrite (H _ _ _ E). exact Hk.
+Qed.
+
+Lemma drel_of_rel k {A} (m : M A) : rel_spec Rdepth allowed_nf m -> drel k m m.
+Proof.
+  intros H. apply drel_same. intros st r st' E. destruct (H _ _ _ E) as [HR _]. unfold Rdepth in HR. congruence.
+Qed.
+
+Lemma drel_bind k {A B} (m1 m2 : M A) (f1 f2 : A -> M B) :
+  drel k m1 m2 -> (forall x, drel k (f1 x) (f2 x)) -> drel k (mbind m1 f1) (mbind m2 f2).
+Proof.
+  intros Hm Hf st Hk. unfold mbind. destruct (Hm st Hk) as [Ho|[He Hd]].
+  - left. destruct (m2 st) as [r s]. cbn [fst] in Ho. subst r. reflexivity.
+  - rewrite He. destruct (m2 st) as [[x|e|e| | | ] s]; cbn [snd] in Hd;
+      try (right; split; [reflexivity | exact Hd]).
+    apply Hf. exact Hd.
+Qed.
+
+Lemma drel_logic k : walker_logic_r (fun _ => true) (@drel k) (@drel (S k) value) (fun _ _ => True).
+Proof.
+  pose proof depth_rel_conditions as C.
+  constructor; intros.
+  - intros st Hk. rewrite <- H, <- H0. apply H1. exact Hk.
+  - apply drel_of_rel. apply (rel_ret _ _ C).
+  - apply drel_of_rel. apply (rel_fail _ _ C).
+  - apply drel_same. intros st r st' E. inversion E. reflexivity.
+  - apply drel_bind; assumption.
+  - apply drel_same. intros st r st' E. inversion E. reflexivity.
+  - apply drel_same. intros st r st' E. inversion E. reflexivity.
+  - apply drel_of_rel. apply (rel_write _ _ C).
+  - apply drel_of_rel. apply (rel_set _ _ C).
+  - apply drel_of_rel. apply (rel_lookup _ _ C).
+  - apply drel_of_rel. apply (rel_fresh_list _ _ C).
+  - apply drel_of_rel. apply (rel_fresh_list_or_nil _ _ C).
+  - apply drel_of_rel. apply (rel_fresh_map _ _ C).
+  - intros st Hk. apply (H (mode st) st Hk).
+  - intros st Hk. apply (H (ctx st) st Hk).
+  - (* scoped *)
+    apply drel_bind; [apply drel_same; intros st r st' E; inversion E; reflexivity|]. intros _.
+    apply drel_bind; [assumption|]. intros _.
+    apply drel_bind; [apply drel_same; intros st r st' E; inversion E; reflexivity|]. intros _.
+    apply drel_of_rel. apply (rel_ret _ _ C).
+  - (* eval *)
+    intros st Hk. rewrite !eval_eq. destruct (H st Hk) as [Ho|[He Hd]].
+    + left. rewrite Ho. reflexivity.
+    + right. rewrite He. split; [reflexivity|].
+      destruct (w2 e st) as [[x|e0|e0| | | ] s]; cbn [fst snd classify of_fault] in *; exact Hd.
+  - (* block *)
+    intros st Hk. rewrite !render_block_eq. destruct (H (buf_pushed st) Hk) as [Ho|[He Hd]].
+    + left. rewrite Ho. reflexivity.
+    + right. rewrite He. split; [reflexivity|].
+      destruct (w2 body (buf_pushed st)) as [[x|e0|e0| | | ] s]; cbn [fst snd classify of_fault] in *; try exact Hd.
+      destruct (bufs s); cbn [snd]; exact Hd.
+  - (* enter: the callee runs one level deeper; the caller's depth is back afterwards *)
+    intros st Hk. rewrite !call_enter_eq. cbn zeta.
+    assert (Hke : depth_ (entered st callee cd) = S k) by (cbn; congruence).
+    destruct (H (entered st callee cd) Hke) as [Ho|[He Hd]].
+    + left. cbn [fst]. rewrite Ho. reflexivity.
+    + right. rewrite He. split; [reflexivity|]. cbn. exact Hk.
+Qed.
+
+Theorem walk_cap_full cf d : forall f n k, (k + f <= S d)%nat -> drel k (walk_cap cf d f n) (walk cf f n).
+Proof.
+  induction f as [|f IH]; intros n k Hle.
+  - intros st Hk. left. reflexivity.
+  - rewrite walk_cap_S, walk_S.
+    apply (rphi_walk_body cf (fun _ => true) (@drel k) (@drel (S k) value) (fun _ _ => True)
+             (drel_logic k) approx_pure_sites (fun _ _ => eq_refl) (cap d (walk_cap cf d f)) (walk cf f)).
+    + intros c _ st Hk. unfold cap. rewrite Hk.
+      assert (E : Nat.leb k d = true) by (apply Nat.leb_le; lia). rewrite E.
+      apply (IH c k ltac:(lia) st Hk).
+    + intros callee _ st Hk. unfold cap. rewrite Hk.
+      destruct (Nat.leb (S k) d) eqn:E.
+      * apply (IH (t_node callee) (S k) ltac:(lia) st Hk).
+      * apply Nat.leb_gt in E. destruct f as [|f']; [left; reflexivity | lia].
+    + apply deep_true.
+Qed.
+
+(* an answer obtained with fuel f from call depth 0 is an answer of the walker capped at f: the run stays
+   within f nested calls.  ([e_capped] is the instrument's own marker, not an error text of the walker.) *)
+Theorem walk_answer_has_depth cf f n st :
+  depth_ st = 0%nat -> is_answer (fst (walk cf f n st)) -> run_depth_le cf f n st.
+Proof.
+  intros Hst [Hoof Hcap]. exists f.
+  destruct (walk_cap_full cf f f n 0%nat ltac:(lia) st Hst) as [Ho|[He _]]; [contradiction|].
+  rewrite He. split; assumption.
+Qed.
